@@ -40,12 +40,19 @@ def canonical (s : Str) : Str := lower (fqdn s)
 
 /-! ### Part 2 — matching -/
 
-/-- The candidates visited by the `strings.IndexByte(key[offset:], '.')` walk of
-`Exists` / `matchHierarchy`: every NON-EMPTY remainder that follows a `'.'`
-byte, in order.  (The byte is not checked for being escaped.) -/
-def dotSuffixes : Str → List Str
-  | [] => []
-  | c :: t => if c = '.' then (if t = [] then [] else t :: dotSuffixes t) else dotSuffixes t
+/-- The candidates visited by the `nextLabel` walk of `Exists` /
+`matchHierarchy`: every NON-EMPTY remainder that follows an UNESCAPED `'.'`, in
+order.  `esc = true` means the previous octet was a backslash whose escape is
+still open (`nextLabel` skips the octet after a backslash). -/
+def dotSuffixesAux : Bool → Str → List Str
+  | _, [] => []
+  | true, _ :: t => dotSuffixesAux false t
+  | false, c :: t =>
+    if c = '\\' then dotSuffixesAux true t
+    else if c = '.' then (if t = [] then [] else t :: dotSuffixesAux false t)
+    else dotSuffixesAux false t
+
+def dotSuffixes (s : Str) : List Str := dotSuffixesAux false s
 
 /-- `matchHierarchy(name, m)`. -/
 def matchHierarchy (name : Str) (m : List Str) : Bool :=
